@@ -146,6 +146,12 @@ class Recorder:
         }
         self._saved = o
         rec = self
+        import shutil as _sh
+
+        # (copies go through write(), where the recorder sees them - not through sendfile / copy_file_range on raw descriptors)
+        self._sh_flags = {n: getattr(_sh, n) for n in ("_USE_CP_SENDFILE", "_USE_CP_COPY_FILE_RANGE", "_HAS_FCOPYFILE") if hasattr(_sh, n)}
+        for n in self._sh_flags:
+            setattr(_sh, n, False)
 
         def p_open(file, mode="r", buffering=-1, encoding=None, errors=None, newline=None, closefd=True, opener=None):
             if isinstance(file, int):
@@ -230,6 +236,13 @@ class Recorder:
             def f(src, dst, *, src_dir_fd=None, dst_dir_fd=None, **kw):
                 a = rec._rel(src) if src_dir_fd is None else None
                 b = rec._rel(dst) if dst_dir_fd is None else None
+                if (a is None) != (b is None) and src_dir_fd is None and dst_dir_fd is None:
+                    # the modelled directory is a filesystem of its own (a data directory on another volume than the system's temporary
+                    # directory - the worst legal case for a name moved in from elsewhere): the kernel refuses, whoever falls back to copying
+                    # does so through open / write, which are recorded
+                    import errno
+
+                    raise OSError(errno.EXDEV, "Invalid cross-device link", os.fspath(src), None, os.fspath(dst))
                 r = o[name](src, dst, src_dir_fd=src_dir_fd, dst_dir_fd=dst_dir_fd, **kw)
                 if a is not None or b is not None:
                     rec.log.append(("rename" if name != "link" else "link", a, b))
@@ -295,6 +308,10 @@ class Recorder:
         os.remove = o["remove"]
         os.truncate = o["truncate"]
         os.ftruncate = o["ftruncate"]
+        import shutil as _sh
+
+        for n, v_ in getattr(self, "_sh_flags", {}).items():
+            setattr(_sh, n, v_)
         return False
 
 
